@@ -352,6 +352,27 @@ Definition target_group (v : variant) (c : cfg) (g : group) (cond : option expr)
          end
   end.
 
+(* TargetShardsHintQuery (full_series hint): only a condition that yields exactly one tag set prunes. Today the hashed key
+   is built from ALL tags of that set (UnmarshalShardKeyByTag(nil)); repaired: from the measurement's shard-key tags, and
+   no pruning when the set does not bind all of them. Without a shard key the key is the measurement name and all tags
+   of the set, as on the write side when the set is the row's full tag set. *)
+Definition target_hint (rep : bool) (v : variant) (c : cfg) (g : group) (cond : option expr) : list shard :=
+  match cond with
+  | None => all_alive g
+  | Some e =>
+      match cond_tags v (c_tagkeys c) e with
+      | Some [ts] =>
+          let sorted := sort_tags ts in
+          let one := fun key => match shard_for c (hash key) g with Some s => [s] | None => [] end in
+          match c_sk c with
+          | [] => one (c_mst c ++ key_suffix sorted)
+          | sk => if rep then (let r := sel_keys sk sorted in if snd r then one (tl (key_suffix (fst r))) else all_alive g)
+                  else one (tl (key_suffix sorted))
+          end
+      | _ => all_alive g
+      end
+  end.
+
 Definition g_overlaps (g : group) (tmin tmax : Z) : bool := (g_start g <=? tmax) && (tmin <? g_end g).
 Definition query_groups (c : cfg) (tmin tmax : Z) : list group :=
   filter (fun g => negb (g_deleted g) && g_overlaps g tmin tmax) (c_groups c).
